@@ -6,7 +6,7 @@
 
 static const uint8_t A[] = { 'a', ':', '/', '@', '?', '#', '[', ']', '.', '0', '9', ' ' };
 #define NA 12
-static uint8_t cur[16]; static int curlen;
+static uint8_t cur[64]; static int curlen;
 static char descbuf[256];
 static const char *describe(void) {
     hx_buf b = { (uint8_t *) descbuf, 0, sizeof descbuf };
@@ -138,6 +138,17 @@ static int worker(int argc, char **argv) {
                 curlen = len;
                 if (!hx_inflight_tick()) { n_eval++; check(cur, len, 0); }
             }
+        }
+    }
+    /* port literals: values around 2^16, 2^31, 2^32, 2^63, 2^64 and values congruent to a valid port modulo 2^32 / 2^64, with leading zeros and blanks */
+    if (hx_shard_i == 0) {
+        static const char *const LIT[] = { "0", "1", "80", "65535", "65536", "65537", "99999", "2147483647", "2147483648", "4294967295", "4294967296", "4294967376", "4295032831", "8589934672",
+            "9223372036854775807", "9223372036854775808", "18446744073709551615", "18446744073709551616", "18446744073709551696", "18446744073709617151", "36893488147419103312", "99999999999999999999999" };
+        static const char *const PRE[] = { "", "0", "0000", " ", "+" }, *const POST[] = { "", " ", "x" }, *const FORM[] = { "a://a:%s%s%s/", "a://a:%s%s%s", "a://[a]:%s%s%s/p", "//a:%s%s%s?q" };
+        for (size_t i = 0; i < sizeof LIT / sizeof LIT[0]; i++) for (int p = 0; p < 5; p++) for (int q = 0; q < 3; q++) for (int f = 0; f < 4; f++) {
+            char t[64]; int n = snprintf(t, sizeof t, FORM[f], PRE[p], LIT[i], POST[q]); if (n >= (int) sizeof cur) continue;
+            memcpy(cur, t, (size_t) n); curlen = n;
+            if (!hx_inflight_tick()) { n_eval++; check(cur, n, 0); }
         }
     }
 out:
